@@ -1,4 +1,4 @@
 From Coq Require Import Extraction ExtrOcamlBasic.
-From PV Require Import Lib.ExtractBase Model.Provider Model.ProviderFile Model.ProviderScan.
+From PV Require Import Lib.ExtractBase Model.Provider Model.ProviderFile Model.ProviderScan Model.ProviderFrame.
 Extraction Language OCaml.
-Extraction "extracted/C08_model.ml" xb_types run bound cyc_prefix ids spec_b spec_engine_cancel spec_dec dec_run dinit is_chosen constructor_refuses run_file f_clean run_file_sz spec_sz all_fit_b.
+Extraction "extracted/C08_model.ml" xb_types run bound cyc_prefix ids spec_b spec_engine_cancel spec_dec dec_run dinit is_chosen constructor_refuses run_file f_clean run_file_sz spec_sz all_fit_b run_framed.
